@@ -69,6 +69,11 @@ CHECKS = {
     text="Held = Shroud exits 0 on every admitted description, every header is self-contained, every source and module compiles in dependency order and the link has no missing or duplicate symbol, for ~210 (quick) / ~700 (thorough) library x configuration builds and the 50 corpus configurations (those with upstream sources).",
     note="Trusted: gcc/g++/gfortran 12, CPython 3.12 headers, minilua headers (declarations per the Lua 5.3 manual). Unreachable here and reported as such: numpy- and MPI-dependent outputs, corpus inputs without library sources. Warnings are not events. Two known findings (forward.yaml python/lua) are listed.",
     design="DESIGN.md §2 C05"),
+ "C04": dict(
+    technique="offline checker over the artifacts of real Shroud executions: gfortran -fc-prototypes (C view of every bind(C) interface and derived type) vs clang -ast-dump=json (typedef-resolved C prototypes and struct fields) vs nm --defined-only, compared by interoperability class; SH_TYPE_* constants from the module vs gcc -E -dM",
+    text="All modules emitted for the 50 corpus configurations and for generated libraries (every Fortran-capable shape, language c and c++, F_CFI off and on; random option/prefix/namespace combinations in the thorough tier): ~900 interfaces / ~1400 arguments / ~55 derived types / ~90 constants per quick run. Held = every binding label is defined by the objects, argument counts and order agree, every argument/result/field has the same interoperability class and passing mode, constants are equal.",
+    note="Trusted: gfortran's and clang's descriptions; x86-64 SysV sizes; F2003 section 15 rules (signedness ignored, void*/C_PTR ~ any object pointer, procedure dummy ~ function pointer). Interfaces gfortran cannot print (TYPE(*), some procedure dummies: counted) and libraries without sources are reported as unreachable. Run-time corroboration comes from C01's calls.",
+    design="DESIGN.md §2 C04"),
 }
 
 NOT_APPLICABLE = []
